@@ -131,7 +131,8 @@ def gen_cases(ctx, n):
 
 def run(ctx):
     thorough = ctx.tier == "thorough"
-    broken = common.proof_step(ctx, THEOREMS, BRIDGES, allowed_axioms=common.REALS_AXIOMS)
+    # proofs.FloatCeil evaluates Flocq on all 65 536 u16 values inside the kernel; coqchk's VM-less reduction would take hours
+    broken = common.proof_step(ctx, THEOREMS, BRIDGES, allowed_axioms=common.REALS_AXIOMS, coqchk_admit=("proofs.FloatCeil",))
     err = common.ensure_runners(ctx)
     if err:
         ctx.violation({"kind": "build", "names": "harness build failed", "log": err[-2000:]}, "harness does not build", found_input=False)
